@@ -306,7 +306,60 @@ def bounded(tier, seed, procs):
             cause = "singular-accepted" if (det == 0 and r[0] == "val") else "other"
             b2.fail(Failure("affine-solver", f"cause={cause} A={A} B={B} c={c} perm={perm} why={why}", dict(kind="solve", A=A, B=B, c=c, perm=perm), expected="exact solution or refusal", actual=why,
                             functions=["solve_affine_equations_for", "gaussian_elimination"]))
-    return [b, b_sub, b2, b_solver_shapes(tier, seed), b_solver_number_types(tier)]
+    return [b, b_sub, b2, b_solver_shapes(tier, seed), b_solver_number_types(tier), b_collector_subclass(tier)]
+
+
+def b_collector_subclass(tier):
+    """A user subclass overriding only the front end __call__ (a more convenient interface, as the base class documents): the handlers recurse with rec, so nothing changes below."""
+    import pymbolic.primitives as p
+    from pymbolic.mapper.coefficient import CoefficientCollector
+    from pymbolic.mapper.evaluator import EvaluationMapper
+    b = BoundedRun("collector-front-end-subclass", rule="a CoefficientCollector subclass whose __call__ fills in a zero entry for every target and the constant term, on affine expressions "
+                   "with quotients by constants, constant powers, nested products: every entry of the plain collector is there with the same value, the sum reconstructs the input at 5 "
+                   "rational points, non-affine inputs raise", bound="22 expressions x 2 target lists", functions=["CoefficientCollector.map_quotient", "CoefficientCollector.map_power", "Mapper.__call__"])
+    x, y, z = trees.X, trees.Y, trees.Z
+
+    class Total(CoefficientCollector):
+        def __call__(self, expr):
+            d = super().__call__(expr)
+            out = {p.Variable(n): 0 for n in (self.target_names or ())}
+            out[1] = 0
+            out.update(d)
+            return out
+    affine = [p.Sum((p.Quotient(x, 2), p.Power(z, 2))), p.Quotient(p.Sum((x, y)), 3), p.Product((2, p.Quotient(x, p.Power(2, 2)))), p.Sum((p.Product((p.Power(3, 2), x)), p.Quotient(y, p.Sum((1, 1))))),
+              p.Quotient(p.Sum((p.Product((2, x)), 5)), p.Product((2, 2))), p.Sum((x, p.Power(z, p.Sum((1, 1))))), p.Product((p.Quotient(1, 2), x, 4)), p.Sum((p.Quotient(x, z), y)), p.Power(5, 2),
+              p.Sum((p.Product((z, x)), p.Quotient(y, p.Power(z, 2)))), p.Quotient(p.Quotient(x, 2), 3), p.Sum((x, y, 7))]
+    nonaffine = [p.Quotient(1, x), p.Power(x, 2), p.Product((x, y)), p.Power(2, x), p.Quotient(y, p.Sum((x, 1)))]
+    pts = [dict(x=Fraction(2), y=Fraction(-3), z=Fraction(5, 2)), dict(x=Fraction(1, 3), y=Fraction(4), z=Fraction(-2)), dict(x=Fraction(0), y=Fraction(1), z=Fraction(3))]
+    for targets in (["x", "y"], ["x"]):
+        for e in affine:
+            plain = outcome.run(lambda: CoefficientCollector(targets)(e))
+            got = outcome.run(lambda: Total(targets)(e))
+            b.case(("affine", repr(e), tuple(targets)), nontrivial=True, sample=dict(expr=repr(e), targets=targets))
+            why = None
+            if plain[0] == "val":
+                if got[0] != "val":
+                    why = f"the subclass raises {outcome.describe(got)[:80]} where the plain collector returns"
+                else:
+                    for k, v in plain[1].items():
+                        if k not in got[1] or repr(got[1][k]) != repr(v):
+                            why = f"entry {k!r}: {got[1].get(k)!r} vs {v!r}"
+                    for pt in pts:
+                        total = sum(EvaluationMapper(pt)(c) * (1 if k == 1 else EvaluationMapper(pt)(k)) for k, c in got[1].items())
+                        if abs(float(total) - float(EvaluationMapper(pt)(e))) > 1e-9:        # integer quotients among the coefficients evaluate to floats
+                            why = f"sum of the entries is {total}, the input {EvaluationMapper(pt)(e)} at {pt}"
+            if why:
+                b.fail(Failure("collector-front-end-subclass", f"what=affine expr={e!r} targets={targets} why={why[:100]}", dict(kind="cc-sub", expr=repr(e), targets=targets), expected=outcome.describe(plain)[:120],
+                               actual=why[:200], functions=["CoefficientCollector.map_quotient", "CoefficientCollector.map_power"]))
+        for e in nonaffine:
+            if targets == ["x"] and e == nonaffine[2]:
+                continue
+            got = outcome.run(lambda: Total(targets)(e))
+            b.case(("nonaffine", repr(e), tuple(targets)))
+            if got[0] == "val":
+                b.fail(Failure("collector-front-end-subclass", f"what=nonaffine-accepted expr={e!r} targets={targets}", dict(kind="cc-sub", expr=repr(e), targets=targets), expected="raises", actual=outcome.describe(got)[:120],
+                               functions=["CoefficientCollector"]))
+    return b
 
 
 def b_solver_number_types(tier):
